@@ -91,27 +91,45 @@ _CHECK = None
 
 
 def _worker(args):
+    """Runs a chunk of run indices; returns an aggregate (memory stays bounded for millions of runs) plus the
+    records of violating runs, harness errors and the first samples."""
     seed, tier, indices = args
     check = _CHECK
-    out = []
+    agg = {"n": 0, "probes": {}, "faults": {}, "aborted": {}, "digests": set(), "ops": 0, "est": 0,
+           "violations": [], "samples": [], "extras": [], "harness_errors": [], "foreign": 0, "digest_list": []}
+    keep_list = bool(os.environ.get("SIMX_KEEP_DIGEST_LIST"))
     for idx in indices:
         plan = check.gen(seed, tier, idx)
         try:
             res = check.run(plan)
         except Exception:  # noqa: BLE001  harness exception: reported apart from violations
-            out.append({"idx": idx, "harness_error": traceback.format_exc()[-1500:]})
+            agg["harness_errors"].append({"idx": idx, "harness_error": traceback.format_exc()[-1500:]})
             continue
-        rec = {"idx": idx, "ok": res["ok"], "digest": res.get("digest") or res.get("history_digest"),
-               "probes": res.get("probes", {}),
-               "ops": res.get("ops_run", 0), "aborted": res.get("aborted"), "faults": res.get("faults_fired", {}),
-               "nontrivial": bool(check.nontrivial(res)), "est": res.get("estimating_steps", 0),
-               "extra": res.get("extra")}
+        agg["n"] += 1
+        for k, v in res.get("probes", {}).items():
+            agg["probes"][k] = agg["probes"].get(k, 0) + v
+        for k, v in res.get("faults_fired", {}).items():
+            agg["faults"][k] = agg["faults"].get(k, 0) + v
+        agg["ops"] += res.get("ops_run", 0)
+        agg["est"] += res.get("estimating_steps", 0)
+        if res.get("aborted"):
+            key = res["aborted"][:70]
+            agg["aborted"][key] = agg["aborted"].get(key, 0) + 1
+        dg = res.get("digest") or res.get("history_digest")
+        if dg and check.nontrivial(res):
+            agg["digests"].add(int(dg[:16], 16))
+        if keep_list:
+            agg["digest_list"].append([idx, dg, res["ok"], res.get("aborted"), res.get("ops_run", 0)])
+        if res.get("extra") is not None:
+            agg["extras"].append(res["extra"])
         if not res["ok"]:
-            rec["violation"] = res["violation"]
+            if res["violation"].get("oracle") == "__foreign__":
+                agg["foreign"] += 1
+            else:
+                agg["violations"].append({"idx": idx, "violation": res["violation"]})
         if idx < 3:
-            rec["sample"] = check.sample_of(plan, res)
-        out.append(rec)
-    return out
+            agg["samples"].append((idx, check.sample_of(plan, res)))
+    return agg
 
 
 def _kill_children(ex):
@@ -251,7 +269,7 @@ def run_check(check, tier, workers=None):
     n = check.n_runs(tier)
     chunk = max(1, min(64, n // (workers * 6) or 1))
     tasks = [(seed, tier, list(range(i, min(n, i + chunk)))) for i in range(0, n, chunk)]
-    records = []
+    aggs = []
     ctx = multiprocessing.get_context("fork")
     ex = ProcessPoolExecutor(max_workers=workers, mp_context=ctx)
 
@@ -263,43 +281,43 @@ def run_check(check, tier, workers=None):
     signal.alarm(int(limit))
     try:
         for out in ex.map(_worker, tasks):
-            records.extend(out)
+            aggs.append(out)
     except Exception:  # noqa: BLE001
         _kill_children(ex)
         harness_error("worker pool failed: %s" % traceback.format_exc()[-800:])
     ex.shutdown()
-    records.sort(key=lambda r: r["idx"])
-    herr = [r for r in records if "harness_error" in r]
+    herr = [h for a in aggs for h in a["harness_errors"]]
     if herr:
+        herr.sort(key=lambda r: r["idx"])
         harness_error("exception in the harness at run %d:\n%s" % (herr[0]["idx"], herr[0]["harness_error"]))
 
-    # ---- merge -----------------------------------------------------------------------------
+    # ---- merge (chunks arrive in run-index order, so the outcome does not depend on the worker count) ------
     probes, faults, aborted = {}, {}, {}
     digests = set()
     ops = est = 0
     samples = []
     foreign = 0
     viol = []
-    for r in records:
-        for k, v in r["probes"].items():
+    extras = []
+    n_records = 0
+    for a in aggs:
+        n_records += a["n"]
+        for k, v in a["probes"].items():
             probes[k] = probes.get(k, 0) + v
-        for k, v in r["faults"].items():
+        for k, v in a["faults"].items():
             faults[k] = faults.get(k, 0) + v
-        ops += r["ops"]
-        est += r["est"]
-        if r["aborted"]:
-            key = r["aborted"][:70]
-            aborted[key] = aborted.get(key, 0) + 1
-        if r["nontrivial"] and r["digest"]:
-            digests.add(r["digest"])
-        if "sample" in r:
-            samples.append(r["sample"])
-        if not r["ok"]:
-            if r["violation"].get("oracle") == "__foreign__":
-                foreign += 1
-            else:
-                viol.append(r)
-    merged = {"records": records, "probes": probes, "faults": faults}
+        for k, v in a["aborted"].items():
+            aborted[k] = aborted.get(k, 0) + v
+        digests |= a["digests"]
+        ops += a["ops"]
+        est += a["est"]
+        foreign += a["foreign"]
+        viol.extend(a["violations"])
+        extras.extend(a["extras"])
+        samples.extend(a["samples"])
+    viol.sort(key=lambda r: r["idx"])
+    samples = [s_ for _, s_ in sorted(samples, key=lambda t: t[0])]
+    merged = {"extras": extras, "probes": probes, "faults": faults}
 
     # ---- violations: group, minimise, replay-verify, match known findings ---------------------
     findings = load_findings()
@@ -369,7 +387,7 @@ def run_check(check, tier, workers=None):
         harness_error(unreplayable[0])
 
     wall = time.time() - t0
-    runs = len(records)
+    runs = n_records
     cov = {
         "evaluations": runs,
         "distinct_nontrivial": len(digests),
